@@ -2,18 +2,39 @@
 
    Go maps have no order.  The model (Json/Value.v) represents an object as an
    association list with unique keys and takes the LIST order wherever the Go
-   code ranges over a map.  This file proves that this choice is harmless:
+   code ranges over a map.  This file proves that this choice is harmless.
 
-   - [veq]  : "the same Go value up to map layout" (objects: same key set,
-              related members, any list order);  an equivalence on well-formed
-              values ([veq_refl], [veq_sym], [veq_trans]);
-   - [oeq]  : outcomes related: both Ok with [veq] values, or both an error
-              (WHICH error may vary), or the same other outcome;
-   - [eval_layout_independent] : for an expression that does not enumerate an
-              object ([no_enum]), related inputs give related outcomes;
-   - the enumerating constructs (`*`, keys, values, items, object projection)
-     give permutations of each other (section 9);
-   - parse-time maps: [assoc_set] is "last binding wins" (section 1).  *)
+   - [veq]  "the same Go value up to map layout": objects have unique keys on
+     both sides and denote related maps ([forall k, orel veq (assoc k m)
+     (assoc k m')]), in any list order.  [veq_obj_intro]/[veq_obj_elim]: this
+     is the formulation "same size + every member of m is found in m'".
+     [veq_refl] (on wf_value), [veq_sym], [veq_trans]; [veq v v] holds exactly
+     when v is well formed ([veq_wf_iff]); [veq_obj_perm].
+   - [oeq]  outcomes: both Ok with [veq] values, or both an error (WHICH error
+     may vary), or the same other outcome.
+   - [eval_layout_independent]: for an expression that does not enumerate an
+     object ([no_enum]) and whose literal maps are maps ([static_maps_wf]),
+     [veq] inputs (root, current node, environment) give [oeq] outcomes.
+     Covered: every node constructor and every built-in except
+     NObjectValues(Current), NProjectObject(Current), keys, values, items
+     (they enumerate) and to_string.
+   - to_string ([jprint_veq], [eval_layout_independent_to_string]): the printed
+     text is the same (keys are sorted), but when one member cannot be printed
+     the model's failure depends on the layout (Err or Unmodelled,
+     [to_string_layout_dependent]); [oeq_lax] relates those two.
+   - the enumerating constructs give permutations of each other:
+     [keys_enum], [values_enum], [items_enum], [object_values_enum],
+     [keys_permutation], [project_object_enum].
+   - parse-time maps: [assoc_set_last_wins], [assoc_set_other],
+     [assoc_set_nodup], [assoc_fold_set].
+
+   Why [veq] insists on unique keys: without it [equal], [length] and
+   to_string are NOT invariant (they visit shadowed entries), so the relation
+   would not be preserved; with it, [veq v v'] implies both are well formed and
+   the theorem also shows that evaluation keeps keys unique
+   ([eval_wf_value]).  The price is [static_maps_wf]: object/array literals in
+   the expression are wf_value and multi-select-hash keys are distinct (the
+   parser builds both with assoc_set); [static_maps_wf_needed].  *)
 From Coq Require Import List ZArith Bool Lia Permutation Arith.
 From JM Require Import Base.Outcome Base.Bytes Base.GoInt Base.Utf8 Num.Dec Num.Flt
   Json.Value Json.JsonPrint
@@ -308,7 +329,7 @@ Qed.
 
 (* [lax = false]: the relation of the main theorem.  [lax = true] additionally
    relates an error with "the model does not determine the result"; it is only
-   needed for to_string of an object (see section 8). *)
+   needed for to_string of an object (section 5, [to_string_layout_dependent]). *)
 Definition orelO (lax : bool) {A B} (R : A -> B -> Prop) (o : outcome A) (o' : outcome B) : Prop :=
   match o, o' with
   | Ok a, Ok b => R a b
@@ -1661,7 +1682,42 @@ Proof.
   rewrite E in H. cbn [oeq] in H. eapply veq_wf_l. exact H.
 Qed.
 
-(* ---- the exclusions are necessary ---- *)
+(* environments given frame by frame with the same names in the same order *)
+Lemma env_veq_pointwise : forall vars vars',
+  Forall2 (Forall2 (kvrel veq)) vars vars' -> env_veq vars vars'.
+Proof.
+  intros vars vars' H. unfold env_veq. induction H as [|f f' r r' Hf H IH]; constructor; [|exact IH].
+  apply kvrel_mrel. exact Hf.
+Qed.
+
+(* what [no_enum] accepts and rejects *)
+(* what [no_enum] accepts and rejects *)
+Example no_enum_accepts :
+  no_enum (NCallBy FGroupBy NCurrent (NField [97])) = true /\
+  no_enum (NCallVar FMerge [NCurrent; NRoot]) = true /\
+  no_enum (NCall1 FFromItems NCurrent) = true /\
+  no_enum (NSelectObjectCurrent [([97], NCurrent); ([98], NRoot)]) = true /\
+  no_enum (NDefine [([97], NCurrent)] (NVariable [97])) = true /\
+  no_enum (NBin OEq NCurrent NRoot) = true /\
+  no_enum (NCall1 FLength NCurrent) = true /\
+  no_enum_lax (NCall1 FToString NCurrent) = true.
+Proof. repeat split; reflexivity. Qed.
+Example no_enum_rejects :
+  no_enum (NCall1 FKeys NCurrent) = false /\ no_enum (NCall1 FValues NCurrent) = false /\
+  no_enum (NCall1 FItems NCurrent) = false /\ no_enum (NCall1 FToString NCurrent) = false /\
+  no_enum NObjectValuesCurrent = false /\ no_enum (NObjectValues NCurrent) = false /\
+  no_enum (NProjectObject NCurrent NCurrent) = false /\ no_enum (NProjectObjectCurrent NCurrent) = false /\
+  no_enum (NPipe (NCall1 FKeys NCurrent) (NIndexCurrent 0)) = false /\
+  no_enum_lax (NCall1 FKeys NCurrent) = false.
+Proof. repeat split; reflexivity. Qed.
+
+(* ---- the side conditions are necessary ---- *)
+(* a literal that is not a map (the parser never builds one) is not related to itself *)
+Example static_maps_wf_needed :
+  let n := NLitObj [([97], VNull); ([97], VNull)] in
+  no_enum n = true /\ ~ oeq (eval VNull n VNull []) (eval VNull n VNull []).
+Proof. split; [reflexivity|]. cbn. intros H. inversion H; discriminate. Qed.
+
 Example keys_layout_dependent :
   ~ oeq (eval VNull (NCall1 FKeys NCurrent) (VObj two_a) []) (eval VNull (NCall1 FKeys NCurrent) (VObj two_b) []).
 Proof.
